@@ -265,7 +265,13 @@ def _battery_temporal(ctx, h, S, rng, chk, full):
         got = call(h.get_times_for_edge, lib_args("H", fs, rng)[0])
         chk("get_times_for_edge", not isinstance(got, _Raised) and sorted(got) == exp, got, exp)
     # windows: all a<b in [-1, tmax+2]
-    wins = [(a, b) for a in range(-1, tmax + 2) for b in range(a + 1, tmax + 3)]
+    if tmax <= 50:
+        wins = [(a, b) for a in range(-1, tmax + 2) for b in range(a + 1, tmax + 3)]
+    else:  # very large time stamps (beyond 2**53): windows between the boundary points around the realised times
+        pts = sorted({p for t in set(times) for p in (t - 1, t, t + 1)} | {0, tmax + 2})
+        wins = [(a, b) for a in pts for b in pts if a < b]
+        if len(wins) > 40:
+            wins = rng.sample(wins, 40)
     if not full and len(wins) > 6:
         wins = rng.sample(wins, 6)
     sizes = sorted({len(k[1]) for k in S.edges} | {0, 1})
@@ -299,7 +305,7 @@ def _battery_temporal(ctx, h, S, rng, chk, full):
         except Exception:
             pass
         _check_snapshots(chk, call(h.subhypergraph), S, list(S.edges), "subhypergraph()(after the caller edited the previous result)")
-        if S.edges:
+        if S.edges and tmax <= 50:
             agg = call(h.aggregate, 1)
             if isinstance(agg, dict):
                 for g in agg.values():
@@ -311,7 +317,11 @@ def _battery_temporal(ctx, h, S, rng, chk, full):
                 ok = isinstance(agg2, dict) and all(mark not in g.get_nodes() for g in agg2.values())
                 chk("aggregate(after the caller edited the previous result)", ok)
     # aggregate
-    widths = list(range(1, tmax + 3))
+    if tmax <= 50:
+        widths = list(range(1, tmax + 3))
+    else:  # widths of the magnitude of the time stamps (a handful of windows), exact integer arithmetic in the reference
+        widths = sorted({w for w in (tmax, tmax + 1, tmax // 2, tmax // 2 + 1, tmax // 3 + 1, 1 << (tmax.bit_length() - 1), (1 << (tmax.bit_length() - 1)) - 1,
+                                     1 << (tmax.bit_length() - 2)) if w >= 1 and tmax // w + 1 <= 40})
     if not full and len(widths) > 3:
         widths = rng.sample(widths, 3)
     for w in widths:
